@@ -126,8 +126,13 @@ PREFIXES = [None, None, "SELECT a FROM t WHERE x > 2;", "CREATE TABLE pre (q MAP
             "CREATE TABLE pre2 (q ARRAY<STRUCT<a:INT, b:STRING>>);"]
 
 
-def build(type_text, pos, opt):
-    cols = ["c0 int", "c1 varchar(5) NOT NULL", "c2 date"]
+# what the column *before* the type under test looks like (lexer flags set by one column live until the statement ends)
+NEIGHBOUR_FORMS = {"plain": "c0 int", "generated": "c0 int AS (c2 + 1)", "generated_always": "c0 int GENERATED ALWAYS AS (c2 * 2) STORED",
+                   "default_paren": "c0 int DEFAULT (1)", "check": "c0 int CHECK (c0 > 1)"}
+
+
+def build(type_text, pos, opt, first="plain"):
+    cols = [NEIGHBOUR_FORMS.get(first, "c0 int") if pos else "c0 int", "c1 varchar(5) NOT NULL", "c2 date"]
     cols[pos] = "x%d %s%s" % (pos, type_text, opt)
     return "CREATE TABLE s.t (\n  " + ",\n  ".join(cols) + "\n);\n"
 
@@ -137,7 +142,10 @@ def check_case(ctx, case):
         return check_partition_case(ctx, case)
     ctx.evaluated()
     tt, pos, (opt, oexp), mode = case["type_text"], case["pos"], case["option"], case["mode"]
-    ddl = build(tt, pos, opt)
+    first = case.get("first", "plain")
+    ddl = build(tt, pos, opt, first)
+    # listed defect: an inline CHECK earlier in the column list leaves the lexer's check flag set, later < > are not typed as brackets
+    kf_check = "C09:angle-type-after-check-column" if (first == "check" and pos and "<" in tt) else None
     ctx.nontrivial_case(digest(ddl + mode))
     nneg, nend = STATE.counters.get("lt_negative", 0), STATE.counters.get("lt_end_nonzero", 0)
     r = parse(ddl, None, output_mode=mode)
@@ -147,20 +155,20 @@ def check_case(ctx, case):
         ctx.violation("exception", dict(case, ddl=ddl), {"exception": r[1], "message": r[2]})
         return
     if len(r[1]) != 1 or "columns" not in r[1][0]:
-        ctx.violation("table_lost", dict(case, ddl=ddl), {"result": short(r[1], 300)})
+        ctx.violation("table_lost", dict(case, ddl=ddl), {"result": short(r[1], 300)}, kf=kf_check)
         return
     cols = r[1][0]["columns"]
     names = [c.get("name") for c in cols]
     want = ["c0", "c1", "c2"]
     want[pos] = "x%d" % pos
     if names != want:
-        ctx.violation("columns_merged_or_lost", dict(case, ddl=ddl), {"observed": names, "expected": want})
+        ctx.violation("columns_merged_or_lost", dict(case, ddl=ddl), {"observed": names, "expected": want}, kf=kf_check)
         return
     c = cols[pos]
     et, es = case["exp_type"], case["exp_size"]
     got_t = c.get("type")
     if squash(got_t) != squash(et):
-        ctx.violation("type_string", dict(case, ddl=ddl), {"observed": got_t, "expected(no white space)": squash(et)})
+        ctx.violation("type_string", dict(case, ddl=ddl), {"observed": got_t, "expected(no white space)": squash(et)}, kf=kf_check)
         return
     if isinstance(got_t, str) and (got_t.count("<") != got_t.count(">") or got_t.count("(") != got_t.count(")") or got_t.count("[") != got_t.count("]")):
         ctx.violation("unbalanced_type", dict(case, ddl=ddl), {"observed": got_t})
@@ -174,7 +182,7 @@ def check_case(ctx, case):
             ctx.violation("option_after_type_lost", dict(case, ddl=ddl), {"option": k, "observed": c.get(k, "<missing>"), "expected": v})
             break
     # differential: the same table with a plain type
-    b = parse(build("int", pos, opt), None, output_mode=mode)
+    b = parse(build("int", pos, opt, first), None, output_mode=mode)
     if b[0] == "ok" and len(b[1]) == 1:
         mine, base = r[1][0], b[1][0]
         a = [dict(col) for col in mine["columns"]]
@@ -253,7 +261,7 @@ def check_partition_case(ctx, case):
 def angle_case(t, rng, style, pos, option, mode, gen):
     text = render_angle(t, rng, style)
     return {"gen": gen, "type_text": text, "exp_type": text, "exp_size": None, "pos": pos, "option": option, "mode": mode, "depth": depth_of(t),
-            "prefix": rng.choice(PREFIXES)}
+            "prefix": rng.choice(PREFIXES), "first": rng.choice(["plain", "plain", "generated", "generated_always", "default_paren", "check"])}
 
 
 def run_shard(ctx):
